@@ -75,6 +75,7 @@ func (fr *frame) execCall(instr ssa.Value, c *ssa.CallCommon, st *State, env map
 		argTypes = append(argTypes, a.Type())
 	}
 	fr.curCallArgs = c.Args
+	fr.curEnv = env
 	if fn := c.StaticCallee(); fn != nil {
 		if mc, ok := c.Value.(*ssa.MakeClosure); ok {
 			// immediately-invoked closure: bind free variables
@@ -191,7 +192,7 @@ func (vc *VC) onStack(fn *ssa.Function) bool {
 }
 
 func (vc *VC) contractApplies(ct *Contract) bool {
-	if ct.NoInline {
+	if ct.NoInline || ct.PureVerdict != "" {
 		return true
 	}
 	for _, cl := range ct.Requires {
@@ -355,6 +356,15 @@ func (fr *frame) applyContract(ct *Contract, key string, sig *types.Signature, a
 		}
 		vc.assume(alive, te2.formula(cl.E))
 	}
+	if ct.PureVerdict != "" {
+		if ei := errResultIndex(sig); ei >= 0 && ei < len(rvals) {
+			var rt types.Type
+			if sig.Recv() != nil && len(args) == sig.Params().Len()+1 {
+				rt = ptypes[0]
+			}
+			vc.assume(alive, "(= (= (itag "+rvals[ei].t+") 0) "+vc.verdictTerm(ct, sig, args, rt)+")")
+		}
+	}
 	return rv, alive
 }
 
@@ -362,6 +372,12 @@ func (fr *frame) execBuiltin(b *ssa.Builtin, c *ssa.CallCommon, args []Val, st *
 	vc := fr.vc
 	reg := vc.eng.types
 	switch b.Name() {
+	case "ssa:wrapnilchk":
+		if vc.safety {
+			vc.oblige("safety", fmt.Sprintf("%s#safety:nil-deref(value method through nil pointer)", shortFn(fr.fn)), vc.pos(c.Pos()), "nil pointer receiver for value method", alive, "(not (= "+args[0].t+" 0))", []string{"C14"})
+		}
+		vc.assume(alive, "(not (= "+args[0].t+" 0))")
+		return args[0]
 	case "len":
 		switch t := types.Unalias(c.Args[0].Type()).Underlying().(type) {
 		case *types.Slice:
